@@ -79,7 +79,7 @@ def support(A):
 def sample_spec(Y, X, r, fv):
     """The statement's sample: for each distinct target value the first floor(floor(r*n)/#values) rows (all rows if 0)."""
     n = len(X)
-    s = int(np.float32(r) * n)
+    s = int(float(np.float32(r)) * n)      # the product is taken in double precision (float32 ratio x integer length)
     q = int(s / len(fv))
     if q == 0:
         return np.array(Y), np.array(X), q
